@@ -499,7 +499,7 @@ pub fn run(tier: Tier) -> i32 {
     let mut bounds = serde_json::Map::new();
 
     // (1) circles: every type byte x every sound byte x every context
-    let extras = ["", ",0:0:0:0:", ",1:2:3:40:x.wav", ",2:0", ",3:1:0", ",4:4:1:-5:", ",1", ",x:0", ",0:0:0:0:a:b", ",1:2:3", ",0:3:2:120:", ",:1:1"];
+    let extras = ["", ",0:0:0:0:", ",0:0:-1:0:", ",1:2:-7:30:", ",1:2:3:40:x.wav", ",2:0", ",3:1:0", ",4:4:1:-5:", ",1", ",x:0", ",0:0:0:0:a:b", ",1:2:3", ",0:3:2:120:", ",:1:1"];
     let total = 256 * 256;
     let a = par_range(total, |idx, acc| {
         let (ty, s) = (idx / 256, idx % 256);
